@@ -376,11 +376,13 @@ func rebuildRunningEventFilter(
 	var continueFrom uint64
 	for {
 		_, err := GetAggregatedBloomFilter(database, rangeStartAligned, lastStoredFilterRangeEnd)
-		if err == nil {
+		// A persisted window that reaches beyond the head was written before a reorg took
+		// the head back into it: it is not complete and may describe replaced blocks.
+		if err == nil && lastStoredFilterRangeEnd <= latest {
 			continueFrom = lastStoredFilterRangeEnd + 1
 			break
 		}
-		if !errors.Is(err, db.ErrKeyNotFound) {
+		if err != nil && !errors.Is(err, db.ErrKeyNotFound) {
 			return nil, fmt.Errorf(
 				"scanning for aggregated bloom filter at range [%d, %d]: %w",
 				rangeStartAligned, lastStoredFilterRangeEnd, err)
